@@ -236,3 +236,6 @@ TEXT["C12"]["note"] += " The look-up of a stored name imports user modules and m
 TEXT["C13"]["level"] += (" A rule whose symbol no longer resolves, or resolves to another memento function, reports a change instead of raising or staying silent (D25, D28, repaired); the cached exit of "
                          "_update_dependencies is only open to an object that holds its own validated rules (D32, repaired).")
 TEXT["C18"]["level"] += " FilesystemStorageBackend.to_dict is proved to carry the codec options of the storage configuration (D31, repaired)."
+TEXT["C14"]["level"] += (" The caller whose closure decides is the function a modifier clone was made from (a clone carries its original's version as an explicit one -- D33, repaired), and the "
+                         "package scope handed to the dependency collection is proved to be exactly the module's __package__.")
+TEXT["C04"]["note"] += " The scalar case of _normalized_json is under contract (json.dumps of that value, computed afresh); functools.lru_cache on a helper is modelled as 'served for an equal earlier argument'."
